@@ -196,7 +196,15 @@ pub fn resave(src: &[u8], xref_stream_out: bool) -> Result<Case, String> {
         lopdf::Object::Stream(st) => !matches!(st.dict.get(b"Type").and_then(|t| t.as_name()), Ok(b"ObjStm") | Ok(b"XRef")),
         _ => true,
     });
-    let expect = from_lo_doc(&doc);
+    // a document loaded from a linearized file also holds the linearization parameter dictionary; its values
+    // describe the old file, and the writer leaves the dictionary out by design (one source in three is given one)
+    if src.len() % 3 == 0 {
+        let id = (doc.objects.keys().map(|k| k.0).max().unwrap_or(0).max(doc.max_id) + 1, 0);
+        doc.max_id = id.0;
+        doc.objects.insert(id, lopdf::Object::Dictionary(lopdf::dictionary! { "Linearized" => 1, "L" => src.len() as i64, "O" => 3, "E" => 100, "N" => 1, "T" => 200 }));
+    }
+    let mut expect = from_lo_doc(&doc);
+    expect.objects.retain(|_, o| !matches!(o, RObj::Dict(e) if e.iter().any(|(k, _)| k == b"Linearized")));
     let mut bytes = vec![];
     doc.save_to(&mut bytes).map_err(|e| format!("save_to failed: {}", e))?;
     Ok(Case { bytes, expect, kind: if xref_stream_out { "resaved/xref-stream" } else { "resaved/xref-table" }, source: Some((src.to_vec(), xref_stream_out)) })
